@@ -17,6 +17,10 @@ impl Finding {
         Finding { rule: rule.into(), locus: locus.into(), detail: detail.into() }
     }
     pub fn sig(&self) -> String {
+        if self.locus.starts_with("offset ") {
+            // byte offsets vary with unrelated fields: the signature of a DER-level finding is its rule
+            return format!("{}@offset", self.rule);
+        }
         format!("{}@{}", self.rule, self.locus)
     }
 }
